@@ -2930,3 +2930,25 @@ package main
 //@   panics may
 //@   ensures the-statements-in-order-separated-by-a-blank-line: result == join_prefix(A, "\n\n", len(rstmts)) + "\n"
 //@   at after call slice.Map#0: A = ret
+
+// local lets: `x := e`, `a, b := frt.DestrN(e)`, a local function `func name(params) T {...}`
+//@ func lvdToGo
+//@   props C03
+//@   panics never
+//@   returns lvd.Lvar.Name + " := " + eToGo(lvd.Rhs)
+
+//@ func ldvdToGo
+//@   props C03
+//@   ghost N []string
+//@   panics never
+//@   ensures text: result == join_prefix(N, ", ", len(ldvd.Lvars)) + " := frt.Destr" + fmtverb("d", len(ldvd.Lvars)) + "(" + eToGo(ldvd.Rhs) + ")"
+//@   ensures names-in-order: forall k int :: 0 <= k && k < len(ldvd.Lvars) ==> N[k] == ldvd.Lvars[k].Name
+//@   at after call slice.Map#0: N = ret
+
+//@ func lfdToGo
+//@   props C03
+//@   ghost P []string
+//@   panics may
+//@   ensures text: result == "func " + lfd.Fvar.Name + "(" + join_prefix(P, ", ", len(lfd.Params)) + ") " + go_type(block_type(lfd.Body)) + "{\n" + bToGoRet(lfd.Body) + "\n}"
+//@   ensures params: forall k int :: 0 <= k && k < len(lfd.Params) ==> P[k] == lfd.Params[k].Name + " " + go_type(lfd.Params[k].Ftype)
+//@   at after call lfdParamsToGo#0: P = c_P
